@@ -197,6 +197,16 @@ def work(item):
                     po = [ctx.poly(v) for v in O1]
                     dec.decide('PrepareEvolve(buf,t) ; A.Evolve(buf) = A.Evolve(H,t), d=%d' % d, [x - y for x, y in zip(pf, po)], 'twostep:d=%d' % d, dict(kind='twostep', d=d),
                                sens_poly=pf[1] + po[1])
+                    # the same statements with the result assigned onto the operand itself
+                    for mode, nm in ((0, 'A = A.Evolve(buf)'), (1, 'A = A.Evolve(H,t)')):
+                        pi = h.run('h_inplace', [I(mode), I(d), Buf('a', a), Buf('h', hv), D(t1), Buf('buf', buf)])
+                        exstats.append(h.last_ex.stats)
+                        if len(pi) != 1 or pi[0].status != 'ok' or pi[0].ret != 0:
+                            out['broken'].append('h_inplace %d d=%d' % (mode, d))
+                            continue
+                        oi = pi[0].out('a')
+                        dec.decide('%s (result assigned onto the operand) = A.Evolve(H,t), d=%d' % (nm, d), [ctx.poly(x) - y for x, y in zip(oi, po)], 'inplace%d:d=%d' % (mode, d),
+                                   dict(kind='inplace', mode=mode, d=d))
     if trig.unmatched:
         out['obligations'].append({'obligation': 'unmatched trig atoms d=%d' % d, 'verdict': '%d' % len(trig.unmatched)})
     out.update(worker_result(solver, exstats, functions=FUNCS))
@@ -251,6 +261,10 @@ def replay(chk, h, c):
         elif kind == 'zero':
             ret, o = h.native('h_evolve', [I(d), Buf('a', av), Buf('h', hv), D(0.0), Buf('o', n=n)])
             worst = max(worst, np.abs(np.array(o['o']) - av).max())
+        elif kind == 'inplace':
+            ret, ob = h.native('h_prepare', [I(d), Buf('h', hv), D(t1), Buf('buf', [np.nan] * (d * (d - 1)))])
+            ret, o = h.native('h_inplace', [I(c['mode']), I(d), Buf('a', av), Buf('h', hv), D(t1), Buf('buf', ob['buf'])])
+            worst = max(worst, np.abs(np.array(o['a']) - o1).max())
         elif kind == 'twostep':
             ret, ob = h.native('h_prepare', [I(d), Buf('h', hv), D(t1), Buf('buf', [np.nan] * (d * (d - 1)))])
             ret, o = h.native('h_fast', [I(d), Buf('a', av), Buf('buf', ob['buf']), Buf('o', [np.nan] * n)])
